@@ -111,6 +111,23 @@ def c05(rng, index, tier):
             late = rng.sample(nets.split(), rng.randint(1, max(1, len(nets.split()) - 1)))
             case["start_delays"] = {worker: rng.choice([1.0, 5.0, 20.0, 60.0, 150.0]) for worker in late}
         return case
+    if case.get("suite_spec") and rng.random() < 0.25:
+        # a requested test that is also the (removable) setup of another requested test, tried by several workers at once
+        spec = suitegen.draw_spec(rng, multi_producer_share=1.0)
+        spec["groups"][0]["variants"][0]["removable"] = True
+        spec["groups"][0]["variants"][1]["removable"] = rng.random() < 0.5
+        case["suite_spec"] = spec
+        case["vm_strs"] = {vm: f"only {d['variants'][0]}\n" for vm, d in spec["vms"].items()}
+        case["restriction"] = rng.choice(["leaves", "only leaves\nonly mp1,tdep\n"])
+        nets, kind = travgen.draw_nets(rng, "lxc", max_workers=3)
+        case["nets"], case["worker_kind"] = nets, kind
+        case["params"] = {"shared_pool": "/mnt/local/images/shared", "max_tries": "2", "stop_status": "pass"}
+        if rng.random() < 0.3:
+            case["params"]["pool_scope"] = "own swarm shared"
+        case["plan"] = {"default_status": "PASS", "dur_seed": index, "dur_mode": rng.choice(["short", "heavy", "tied"]), "by_class": {}, "withhold": []}
+        case["store"], case["population"], case["eager"] = {"states": {}, "roots": {}}, "empty", False
+        case.pop("interrupt_at", None)
+        return case
     if case.get("suite_spec"):
         spec = case["suite_spec"]
         for setup in spec["setups"]:
